@@ -18,7 +18,9 @@ import tempfile
 from .. import core, cartio, refpng
 
 GEN = '''SPECIFICATION Spec
-CONSTANT MaxSpec = %d
+CONSTANTS MaxSpec = %d
+MinSpec = %d
+NoErr = %s
 CONSTRAINT Emit
 CHECK_DEADLOCK FALSE
 '''
@@ -149,7 +151,11 @@ def run(ctx):
     ctx.rule = ('configurations printed by TLC from Build.tla: all valid assignments of {unspecified, .p8, .p8.png, a source whose section is blank, empty, (lua: .lua)} to the six sections x OUT absent/existing x OUT format, '
                 'and those with exactly one unusable argument; quick = all with <= 2 specified sections + random ones with 3; non-trivial = built, read back and provenance equal to the expectation')
     ctx.assumptions = ['contents are distinct per source and section, so provenance can be read off OUT', 'OUT is read back with picotool\'s own readers (their fidelity is C03 / C04 / C16)']
-    r = ctx.tlc('Build', GEN % (3 if ctx.quick else 6), name='GenBuild')
+    r = ctx.tlc('Build', GEN % ((3, 0, 'FALSE') if ctx.quick else (6, 0, 'FALSE')), name='GenBuild')
+    full = []
+    if ctx.quick:
+        # quick also samples the configurations that name every section (no section of OUT survives, its label must)
+        full = ctx.tlc('Build', GEN % (6, 5, 'TRUE'), name='GenBuild_5_or_6_named').jsons
     seen = set()
     cfgs = []
     for x in r.jsons:
@@ -162,7 +168,7 @@ def run(ctx):
     ctx.notes['configurations_enumerated'] = {'valid': len(valid), 'with_one_unusable_argument': len(bad)}
     if ctx.quick:
         small = [c for c in valid if sum(1 for s in SECS if c['args'][s] != 'unspec') <= 2]
-        pick = small + rnd.sample(valid, 250) + rnd.sample(bad, 150)
+        pick = small + rnd.sample(valid, 250) + rnd.sample(bad, 150) + rnd.sample(full, 160)
     else:
         pick = valid + rnd.sample(bad, 3000)
     res = core.parmap(_case, [(c, ctx.tmp) for c in pick], procs=16)
